@@ -20,6 +20,8 @@ type Pkg struct {
 
 	DepFunc    int  `json:"dep_func,omitempty"`   // 0: F not deprecated; 1: deprecated; 2: same-length non-marker comment
 	DepMethod  int  `json:"dep_method,omitempty"` // method T.M: 0 not deprecated; 1 deprecated; 2 same-length non-marker comment
+	Common     int  `json:"common,omitempty"`     // 0: no common.go; 1: common.go whose commonUnused is unused; 2: the same file (same base name, same lines) with commonUnused used
+	TestBody   int  `json:"test_body,omitempty"`  // version counter of the in-package test file only
 	TwoFiles   bool `json:"two_files,omitempty"`  // a second source file with its own problems and a file-ignore directive
 	Generic    bool `json:"generic,omitempty"`    // generic helpers, instantiated here and by importers
 	IfaceUse   bool `json:"iface_use,omitempty"`  // a type whose methods are used only through an interface; an unused method next to it
@@ -202,6 +204,15 @@ func (m *Mod) renderPkg(i int, out map[string]string) {
 	}
 	out[name+"/"+name+".go"] = b.String()
 
+	if p.Common > 0 {
+		// every package's common.go has the same base name and the same
+		// objects on the same lines; only the use of commonUnused differs
+		use := "0"
+		if p.Common == 2 {
+			use = "commonUnused()"
+		}
+		out[name+"/common.go"] = fmt.Sprintf("package %s\n\nfunc commonUnused() int { return 0 }\n\nfunc commonHelper() int { return 1 }\n\n// CommonUsed is exported.\nfunc CommonUsed() int { return commonHelper() + %s }\n", name, use)
+	}
 	if p.TwoFiles {
 		out[name+"/"+name+"_b.go"] = fmt.Sprintf("//lint:file-ignore SA4018 second file exception\n\npackage %s\n\n// Second lives in the second file.\nfunc Second() int {\n\ty := %d\n\ty = y\n\tif y == y {\n\t\ty++\n\t}\n\treturn y + helper()\n}\n\nfunc secondUnused() int { return 2 }\n", name, 1+p.Body)
 	}
@@ -210,7 +221,7 @@ func (m *Mod) renderPkg(i int, out map[string]string) {
 		if p.RecvMix {
 			extra = "\n// SetX is declared in the test file with another receiver name.\nfunc (x *T) SetX(v int) { x.x = v }\n"
 		}
-		out[name+"/"+name+"_test.go"] = fmt.Sprintf("package %s\n\n// CheckHelper uses helper.\nfunc CheckHelper() int { return helper() }\n\nfunc testOnlyUnused() int { return 1 }\n%s", name, extra)
+		out[name+"/"+name+"_test.go"] = fmt.Sprintf("package %s\n\n// CheckHelper uses helper.\nfunc CheckHelper() int { return helper() }\n\nfunc testOnlyUnused() int { return %d }\n%s", name, 1+p.TestBody, extra)
 	}
 	if p.XTest {
 		out[name+"/x_test.go"] = fmt.Sprintf("package %s_test\n\nimport %q\n\n// CheckF uses F.\nfunc CheckF() int { return %s.F() }\n", name, m.Path+"/"+name, name)
@@ -304,6 +315,7 @@ func Generate(r *Rng, npkg int, shape string, tests bool) *Mod {
 			RangeInt:   r.P(150),
 			IgnoreU:    r.P(250),
 			TwoFiles:   r.P(300),
+			Common:     []int{0, 1, 2, 1}[r.N(4)],
 			Generic:    r.P(300),
 			IfaceUse:   r.P(300),
 			TagFile:    r.P(200),
